@@ -35,6 +35,9 @@ def explore(ctx, art):
     # ... and with one more peer that connects right before Stop() while the application's OnNewConn callback for it is still
     # running (150 ms): the connection is not in the server's table yet, only its own context can tell it about the stop
     lines += ["case %s srvstop k%ds stop" % (t, k) for t in ("tcp", "dtls") for k in (0, 1)]
+    # a stream server accepts a connection whose peer is already gone: the signalling message written during the set-up
+    # fails; the connection handed to OnNewConn must still complete its done signal and run its callbacks once
+    lines += ["case tcp srvstop deadpeer stop"]
     # DTLS (pion's real handshake and record layer, loopback): the peer never answers the ClientHello; the peer completes the
     # handshake and stays silent / acknowledges without responding
     lines += ["case dtls %s handshake %s" % (o, c) for o in OPS if o != "obscancel" for c in ("cancel", "deadline", "close")]
